@@ -250,7 +250,17 @@ def stepLine (d : DSt) (line : String) : DSt × String :=
         let r := seqStep d d.seq op
         let d := { d with seq := r.1 }
         (d, s!"{showOut r.2} {bloomDump d} {tqDump d}")
-      | none => (d, "bad-op")
+      | none =>
+        match ts with
+        | ["enumplain", c, m] =>
+          -- Blockstore.AllKeysChan: same pass-through, the error flag is not observable
+          let r := seqStep d d.seq (.enum c.toNat! (m != "0"))
+          let d := { d with seq := r.1 }
+          let o := match r.2 with
+            | .keys ks _ => s!"keys:{",".intercalate (ks.map toString)}:-"
+            | x => showOut x
+          (d, s!"{o} {bloomDump d} {tqDump d}")
+        | _ => (d, "bad-op")
 
 partial def loop (h : IO.FS.Stream) (out : IO.FS.Stream) (d : DSt) : IO Unit := do
   let line ← h.getLine
